@@ -547,6 +547,11 @@ func (g *clientEngine) clientApplyView(lg *clientLog, c *clientCase) (view map[s
 			l.Extensions = bytes.Clone(l.Extensions)
 			l.Extensions[7] ^= byte(1 + t.B%7)
 		})
+	case "data-leaf-index-high": // only the most significant bytes of the 40-bit index (index + k·2^32, index + k·2^24)
+		mutLeaf(func(l *submitLeaf) {
+			l.Extensions = bytes.Clone(l.Extensions)
+			l.Extensions[3+t.A%2] ^= byte(1 + t.B%7)
+		})
 	case "data-archival": // the entry without its leaf_index extension
 		mutLeaf(func(l *submitLeaf) { l.Extensions = nil })
 	case "data-truncate-entry":
@@ -1146,6 +1151,10 @@ func (g *clientEngine) runCase(c *clientCase) (err error) {
 					}
 				}
 			}
+			if ck.Extension != "" {
+				// the RFC 6962 tree head signature covers origin-less (size, root, timestamp) only: nothing signs extension lines
+				g.fail(c, "client-checkpoint-unsigned-extension", fmt.Sprintf("%s: Checkpoint returned {%s, %d} with extension lines %q, which no signature of the configured key covers", name, ck.Origin, ck.N, ck.Extension))
+			}
 			if !signed {
 				g.fail(c, "client-checkpoint-not-signed-by-key", fmt.Sprintf("%s: Checkpoint returned {%s, %d, %x} which carries no valid tree head signature of the configured key", name, ck.Origin, ck.N, ck.Hash[:8]))
 			}
@@ -1202,7 +1211,7 @@ func clientLenientIndex(ext []byte) (int64, bool) {
 // ---------------------------------------------------------------- generation
 
 var clientDataTampers = []string{"data-swap", "data-rotate", "data-duplicate", "data-fingerprints", "data-precert-bytes", "data-timestamp",
-	"data-cert-byte", "data-cert-extend", "data-ikh", "data-type", "data-leaf-index", "data-archival", "data-truncate-entry", "data-truncate-bytes",
+	"data-cert-byte", "data-cert-extend", "data-ikh", "data-type", "data-leaf-index", "data-leaf-index-high", "data-archival", "data-truncate-entry", "data-truncate-bytes",
 	"data-append-entry", "data-append-garbage", "data-bitflip", "data-empty", "data-missing", "data-other-log", "all-other-log"}
 var clientHashTampers = []string{"hash-bitflip", "hash-truncate", "hash-missing", "hash-extend"}
 var clientCkptTampers = []string{"ckpt-sig-flip", "ckpt-size", "ckpt-root", "ckpt-origin", "ckpt-extension", "ckpt-drop-log-sig", "ckpt-attacker-key",
